@@ -2,8 +2,8 @@ SPECIFICATION GSpec
 CONSTANTS MaxDepth = 4
           MaxLen = 4
           NFd = 1
-          ArgPaths <- GArgPaths
-          MvDsts <- GMvDsts
+          ArgPaths <- @ARGS@
+          MvDsts <- @DSTS@
           DataSet <- GDataSet
           Offs = {1}
           Sizes = {0, 3}
